@@ -1,7 +1,9 @@
-(** C11 (visit walk under interleaving, fix 0012) — for every reachable disk, every operation running
-    in another goroutine and every schedule (how many of its file-system steps run before each directory
-    read of the walk: the file.visit.* yield points), VisitMailboxes returns no error: a directory that
-    vanished since it was listed is skipped, every mailbox it reads decodes. *)
+(** C11 (visit walk under interleaving, fix 0012) — for every reachable disk, ONE other operation running in
+    another goroutine, and every schedule of that pair at the granularity of the model (before each directory
+    read of the walk — the file.visit.* yield points — the other operation advances by any number of its WHOLE
+    file-system steps; states inside a step and several concurrent operations are not covered here),
+    VisitMailboxes returns no error: a directory that vanished since it was listed is skipped, every mailbox
+    it reads decodes. *)
 From IV Require Import Base.Bytes Model.FileDisk Model.FileDiskVisit Proofs.FileDiskCrash Proofs.FileDiskVisit.
 Theorem visit_tolerates_concurrent_removal : forall (enc : index -> str) (dec : str -> option index),
   (forall i, dec (enc i) = Some i) ->
